@@ -222,6 +222,7 @@ def binop(ip, op, a, b, inplace=False):
         a = a.v
     if isinstance(b, HByteArray):
         b = b.v
+    a, b = senum_str(a), senum_str(b)
     # ---- ints
     if isint(a) and isint(b):
         if op == 'Add':
@@ -386,7 +387,15 @@ def eq(ip, a, b):
         return z3.And(*cs) if cs else True
     if isinstance(a, SEnum) or isinstance(b, SEnum):
         en, other = (a, b) if isinstance(a, SEnum) else (b, a)
-        return z3.Or(*[z3.And(zint(en.idx) == k, zbool(eq(ip, v, other))) for k, v in en.table.items()])
+        alts = []
+        for k, v in en.table.items():
+            c_ = eq(ip, v, other)
+            if c_ is False:
+                continue
+            alts.append(zint(en.idx) == k if c_ is True else z3.And(zint(en.idx) == k, zbool(c_)))
+        if not alts:
+            return False
+        return alts[0] if len(alts) == 1 else z3.Or(*alts)
     if isinstance(a, (HObj, HDict, ZList, Opaque)) or isinstance(b, (HObj, HDict, ZList, Opaque)):
         if isinstance(a, Opaque) and isinstance(b, Opaque):
             return zint(a.oid) == zint(b.oid)
@@ -875,7 +884,19 @@ def delitem(ip, o, k):
 
 
 # -------------------------------------------------------------------------------------- strings
+def senum_str(x):
+    """a finite choice among concrete strings as one symbolic string"""
+    if isinstance(x, SEnum) and x.table and all(isinstance(v, str) for v in x.table.values()):
+        items = list(x.table.items())
+        r = z3.StringVal(items[-1][1])
+        for k, v in reversed(items[:-1]):
+            r = z3.If(zint(x.idx) == k, z3.StringVal(v), r)
+        return SStr(r)
+    return x
+
+
 def to_str(ip, x):
+    x = senum_str(x)
     if isinstance(x, (str, SStr)):
         return x
     if is_concrete(x):
@@ -995,6 +1016,25 @@ def method_model(ip, o, name, args, kwargs):
             o.arr = z3.Lambda([q3], z3.If(q3 < j, z3.Select(o.arr, q3), z3.Select(o.arr, q3 + 1)))
             o.ln = z3.simplify(zint(o.ln) - 1)
             return None
+        if name == 'extend':
+            ip.heap_write_guard()
+            other = ip.resolve(args[0])
+            if isinstance(other, (list, tuple)):
+                for x_ in other:
+                    zl_append(ip, o, x_)
+                return None
+            if isinstance(other, ZList) and other.elem == o.elem and other is not o:
+                if o.items is not None and other.items is not None:
+                    for x_ in list(other.items):
+                        zl_append(ip, o, x_)
+                    return None
+                if o.kind == 'deque':
+                    raise Unsupported('deque.extend with a symbolic list')
+                a0, n0, a1, n1 = o.arr, zint(o.ln), other.arr, zint(other.ln)
+                q_ = z3.Const('j!ext', I)
+                o.arr = z3.Lambda([q_], z3.If(q_ < n0, z3.Select(a0, q_), z3.Select(a1, q_ - n0)))
+                o.ln = z3.simplify(n0 + n1)
+                return None
         raise Unsupported(f'list.{name} on symbolic list')
     if isinstance(o, HDict):
         if name == 'get':
@@ -1083,8 +1123,10 @@ def method_model(ip, o, name, args, kwargs):
     if is_bytes(o) and not (is_concrete(o) and all(is_concrete(a) for a in args)):
         if name == 'join':
             return mkbytes(_join(ip, o, args[0]))
-        if name == 'hex' and isinstance(o, SB):
-            raise Unsupported('hex() of symbolic bytes')
+        if name == 'hex' and isinstance(o, SB) and not args:
+            h_ = sym.hex_of(bexpr(o))
+            ip.ctx.define(z3.Length(h_) == 2 * zint(blen(o)))
+            return SStr(h_)
         if name == 'decode':
             return utf8_decode(ip, o)
     if isinstance(o, HByteArray):
@@ -1102,6 +1144,10 @@ def method_model(ip, o, name, args, kwargs):
         if name == 'encode':
             return sym_bytes(sym.utf8enc(sym.sexpr(o)))
         if name == 'join' and isinstance(o, str):
+            a0_ = ip.resolve(args[0])
+            if isinstance(a0_, ZList) and a0_.items is None and sym.concrete_int(a0_.ln) is None:
+                # joined text of a list of symbolic length: an unknown string (nothing is stated about it)
+                return SStr(fresh('joined', sym.STR))
             parts = ip.iter_concrete(args[0])
             out = []
             for i, p in enumerate(parts):
